@@ -251,6 +251,7 @@ func (c *Conn) writable() bool {
 }
 
 // SetLimit bounds the bytes queued towards the peer (0 = unbounded).
+//go:norace
 func (c *Conn) SetLimit(n int) { c.out.limit = n }
 
 //go:norace
@@ -316,8 +317,19 @@ func (c *Conn) Write(b []byte) (int, error) {
 	h := c.out
 	if h.limit > 0 && h.q.n >= h.limit {
 		// the transport's buffers are full: block like a TCP socket whose peer does not read
-		if !vs.Block(c.writable, c.wdl) {
-			return 0, ErrTimeout
+		// like a socket, a blocked Write notices a deadline that another task sets (or moves) meanwhile
+		for !c.writable() {
+			dl := c.wdl
+			ok := vs.Block(func() bool { return c.writable() || c.wdl != dl }, dl)
+			if c.writable() {
+				break
+			}
+			if !ok && c.wdl == dl {
+				return 0, ErrTimeout
+			}
+			if !c.wdl.IsZero() && !vs.Now().Before(c.wdl) {
+				return 0, ErrTimeout
+			}
 		}
 		if c.closed {
 			return 0, net.ErrClosed
